@@ -14,13 +14,14 @@ EXTENDS Staging_MC, Json
 
 CONSTANTS NOps
 VARIABLES hist, pc, start, lastReq
-svars == <<m, root, rcache, store, recv, bad, hist, pc, start, lastReq>>
+svars == <<m, root, rcache, store, recv, obst, bad, hist, pc, start, lastReq>>
 \* what tends to follow what (repetition = weight): mostly the controller's cycle
 \* Scan -> Stage -> Recv -> Trans, with every deviation possible
 LastOp == IF hist = <<>> THEN "none" ELSE hist[Len(hist)].op
 Menu == CASE LastOp = "Scan" -> <<"Stage", "Stage", "Stage", "Stage", "Ext", "TransG", "Scan", "Recv">>
-          [] LastOp = "Stage" -> <<"Recv", "Recv", "Recv", "Recv", "TransG", "Ext", "Stage", "Scan">>
-          [] LastOp = "Recv" -> <<"TransG", "TransG", "TransG", "TransG", "TransW", "Ext", "Scan", "Recv", "Stage">>
+          [] LastOp = "Stage" -> <<"Recv", "Recv", "Recv", "Recv", "TransG", "Ext", "Stage", "Scan", "Restart">>
+          [] LastOp = "Recv" -> <<"TransG", "TransG", "TransG", "TransG", "TransW", "Ext", "Scan", "Recv", "Stage", "Restart", "Restart">>
+          [] LastOp = "Restart" -> <<"Scan", "Scan", "Scan", "Scan", "Stage", "TransG", "Ext">>
           [] LastOp = "Trans" -> <<"Scan", "Scan", "Scan", "Scan", "Ext", "Stage", "TransG", "Recv">>
           [] LastOp \in {"ExtWrite", "ExtRemove", "Noop"} -> <<"Scan", "Scan", "Stage", "TransG", "Ext", "Recv">>
           [] OTHER -> <<"Scan", "Scan", "Scan", "Scan", "Ext", "Stage", "TransG", "TransW">>
@@ -33,12 +34,12 @@ SInit == /\ Init /\ hist = <<>> /\ pc = "pick" /\ lastReq = <<>>
 
 Pick == /\ pc = "pick" /\ Len(hist) < NOps
         /\ \E i \in DOMAIN Menu : pc' = Menu[i]
-        /\ UNCHANGED <<m, root, rcache, store, recv, bad, hist, start, lastReq>>
+        /\ UNCHANGED <<m, root, rcache, store, recv, obst, bad, hist, start, lastReq>>
 
 Log(e) == hist' = Append(hist, e) /\ pc' = "pick" /\ UNCHANGED start
 ReqJson(req) == [i \in DOMAIN req |-> [path |-> req[i].path, c |-> req[i].d]]
 ChgJson(chg) == [i \in DOMAIN chg |-> [path |-> chg[i].path, old |-> NameOf(chg[i].old), new |-> NameOf(chg[i].new)]]
-Idle == UNCHANGED <<m, root, rcache, store, recv, bad>>
+Idle == UNCHANGED <<m, root, rcache, store, recv, obst, bad>>
 
 \* the plan a controller derives from the request and the snapshot of the last scan
 SeenAt(p) == IF At(m.cache, p).k = "file" THEN At(m.cache, p) ELSE Nil
@@ -55,6 +56,7 @@ SRecv == /\ pc = "Recv" /\ UNCHANGED lastReq
             ELSE \E kinds \in [DOMAIN recv -> KindSet], fault \in FaultSet : DoRecv(kinds, fault) /\ Log([op |-> "Recv", kinds |-> kinds, fault |-> fault])
 STransG == pc = "TransG" /\ \E chg \in GuidedPlans : DoTrans(chg) /\ Log([op |-> "Trans", chg |-> ChgJson(chg)]) /\ UNCHANGED lastReq
 STransW == pc = "TransW" /\ \E chg \in WildPlans : DoTrans(chg) /\ Log([op |-> "Trans", chg |-> ChgJson(chg)]) /\ UNCHANGED lastReq
+SRestart == pc = "Restart" /\ \E plant \in Restarts : DoRestart(plant) /\ Log([op |-> "Restart", plant |-> plant]) /\ UNCHANGED lastReq
 SExt == /\ pc = "Ext" /\ UNCHANGED lastReq
         /\ \E n \in ExtNames, v \in FileOrNil :
              IF At(root, <<n>>) = v THEN Idle /\ Log([op |-> "Noop"])
@@ -63,10 +65,10 @@ SExt == /\ pc = "Ext" /\ UNCHANGED lastReq
 \* the walk is complete: print it (evaluated once per walk, when this is the only enabled step)
 Done == /\ pc = "pick" /\ Len(hist) = NOps
         /\ PrintT(<<"BEHAVIOUR", ToJson([init |-> start.init, max |-> start.max, maxfile |-> start.maxfile, ops |-> hist])>>)
-        /\ pc' = "done" /\ UNCHANGED <<m, root, rcache, store, recv, bad, hist, start, lastReq>>
+        /\ pc' = "done" /\ UNCHANGED <<m, root, rcache, store, recv, obst, bad, hist, start, lastReq>>
 Stop == pc = "done" /\ UNCHANGED svars
 
-SNext == Pick \/ SScan \/ SStage \/ SRecv \/ STransG \/ STransW \/ SExt \/ Done \/ Stop
+SNext == Pick \/ SRestart \/ SScan \/ SStage \/ SRecv \/ STransG \/ STransW \/ SExt \/ Done \/ Stop
 SSpec == SInit /\ [][SNext]_svars
 SNoViolation == bad = ""
 ====
